@@ -208,10 +208,10 @@ def run_history(case):
     for hist in histories:
         vals = [ALPHABET[i] for i in hist]
         n = len(vals)
-        splits = [None] + list(range(1, n))
+        splits = [None] + list(range(1, n)) + (["reuse"] if (n >= 3 and hist[0] == hist[2]) else [])
         fails = [(None, None)] + [(p, k) for p in range(n) for k in ("nan", "never")] + ([(n - 1, "real")] if item in ("NeoHooke",) else [])
         for split in splits:
-            for (fpos, fkind) in (fails if split is None else fails[:1] + [f for f in fails[1:] if f[1] == "nan"]):
+            for (fpos, fkind) in (fails if split is None else (fails[:1] if split == "reuse" else fails[:1] + [f for f in fails[1:] if f[1] == "nan"])):
                 mesh, region, field, um, base, body, bounds, lc, L = build(model, item)
                 poison = Poison(field, lc["dof1"])
                 pv = [0] * n
@@ -226,6 +226,11 @@ def run_history(case):
                 items = [body, poison]
                 if split is None:
                     steps = [fem.Step(items, ramp={bounds["move"]: scaled, poison: pv}, boundaries=bounds)]
+                elif split == "reuse":
+                    # the SAME Step object is generated twice (values 0 and 2 of the history are equal), another step in between
+                    s0 = fem.Step(items, ramp={bounds["move"]: scaled[:1], poison: pv[:1]}, boundaries=bounds)
+                    s1 = fem.Step(items, ramp={bounds["move"]: scaled[1:2], poison: pv[1:2]}, boundaries=bounds)
+                    steps = [s0, s1, s0] + ([fem.Step(items, ramp={bounds["move"]: scaled[3:], poison: pv[3:]}, boundaries=bounds)] if n > 3 else [])
                 else:
                     steps = [fem.Step(items, ramp={bounds["move"]: scaled[:split], poison: pv[:split]}, boundaries=bounds),
                              fem.Step(items, ramp={bounds["move"]: scaled[split:], poison: pv[split:]}, boundaries=bounds)]
@@ -274,7 +279,10 @@ def run_history(case):
                     ux = x.reshape(-1, 3)[mp, 0]
                     if not np.array_equal(ux, np.full(len(mp), scaled[i])):
                         c.bad(sub + f"/value{i}", "prescribed displacement of substep i must be the i-th ramp value", ux.tolist()[:2], scaled[i])
-                    exp_ji = (0, i) if split is None else ((0, i) if i < split else (1, i - split))
+                    if split == "reuse":
+                        exp_ji = (i, 0) if i < 3 else (3, i - 3)
+                    else:
+                        exp_ji = (0, i) if split is None else ((0, i) if i < split else (1, i - split))
                     if (j, ii) != exp_ji:
                         c.bad(sub + f"/numbering{i}", "step / substep numbers passed to the callback", [j, ii], list(exp_ji))
                 nseen = len(got) + (1 if fpos_eff is not None else 0)
